@@ -580,3 +580,60 @@ def apply_detection_outcomes(ctx, cq: str):
                                                      marked=[getattr(x, "name", repr(x)) for x in marked], inner_same=det.detection_items[2] is inner if len(det.detection_items) > 2 else False))
     cache[key] = (m, out)
     return m, out
+
+
+def load_ruleset_outcome(ctx, resolve: bool = True, hooks: bool = False):
+    """SigmaCollection.load_ruleset interpreted (sa.tabulate, ClassProxy) on two stand-in paths: what the per-file loader, the
+    merge and the final resolution are called with. → namespace: per_file (list of keyword dicts of from_yaml, positional
+    arguments mapped to its parameter names), merge (list of (collections, keywords)), resolved (number of calls of
+    resolve_rule_references on the merged collection), ret, raised."""
+    import types as _types
+    from collections.abc import Iterable as _Iterable
+    from ..tabulate import ClassProxy, call_method, Raised
+    prog = ctx.prog
+    SC = "sigma.collection.SigmaCollection"
+    fy_params = [p for p in prog.func(SC + ".from_yaml").params() if p not in ("self", "cls")]
+    mg_params = [p for p in prog.func(SC + ".merge").params() if p not in ("self", "cls")]
+    per_file: list = []
+    merges: list = []
+    resolved = [0]
+    opened: list = []
+
+    class _Path:
+        def __init__(self, n): self.n = n
+        def open(self, *a, **k):
+            opened.append(self.n)
+            outer = self
+            class _F:
+                def __enter__(self_): return f"FD({outer.n})"
+                def __exit__(self_, *a_): return False
+                def read(self_): return f"TEXT({outer.n})"
+                def close(self_): pass
+            return _F()
+        def __repr__(self): return self.n
+
+    def from_yaml(*a, **k):
+        d = dict(zip(fy_params, a)); d.update(k)
+        per_file.append(d)
+        return _types.SimpleNamespace(rules=[f"rule-of-{len(per_file)}"], filters=[], errors=[], tag=f"collection-{len(per_file)}")
+
+    merged = _types.SimpleNamespace(resolve_rule_references=lambda: resolved.__setitem__(0, resolved[0] + 1), tag="merged")
+
+    def merge(*a, **k):
+        d = dict(zip(mg_params, a)); d.update(k)
+        d["collections"] = [getattr(c, "tag", c) for c in d.get("collections", [])]
+        merges.append(d)
+        return merged
+    env: dict = {"Iterable": _Iterable, "SigmaRuleLocation": lambda p_: ("location", p_), "Path": _Path, "open": lambda p_, *a, **k: p_.open()}
+    over = {"resolve_paths": lambda inputs, pattern=None: [_Path("p1"), _Path("p2")], "from_yaml": from_yaml, "merge": merge}
+    klass = ClassProxy(prog, SC, env, interp_kwargs={"max_steps": 8000, "behaviours": (TypeError,)}, overrides=over)
+    env["SigmaCollection"] = klass
+    out = _types.SimpleNamespace(per_file=per_file, merge=merges, resolved=resolved, ret=None, raised=None, opened=opened, merged=merged)
+    kwargs = {"resolve_references": resolve}
+    if hooks:
+        kwargs.update({"on_beforeload": lambda p_: None if p_.n == "p1" else p_, "on_load": lambda p_, c_: c_})
+    try:
+        out.ret = call_method(prog, SC, "load_ruleset", klass, env, ["in1", "in2"], False, interp_kwargs={"max_steps": 8000, "behaviours": (TypeError,)}, **kwargs)
+    except Raised as ex:
+        out.raised = ex
+    return out
